@@ -153,24 +153,33 @@ Section Statements.
       /\ (forall e, In e (concat Xt) -> ~ In e Rt /\ ~ In e (pending qt)).
   Proof. exact term_frames_flush_delimited. Qed.
 
-  (* the render loop's schema - poll; frames_drop if too many frames are pending; write the next
-     frame - satisfies that hypothesis (as long as the handler draws on the surface and does not
-     write to the terminal object itself between poll and drop) *)
+  (* the render loop's schema (terminal.rs run_render) - poll; frames_drop when more than 32 frames
+     are pending; then every write of the iteration: the renderer's clear after a drop or a
+     Resize, the handler's own writes, the frame - satisfies that hypothesis, provided a poll that
+     is followed by a drop queued nothing itself.  (It does in escape sequence resize mode: the
+     size query on SIGWINCH.  Then C16_frames applies - the query is a fragment dropped whole -
+     and the query is queued again by frames_drop since e293376, see
+     C16_size_query_dropped_example.) *)
   Theorem C16_render_loop_schema : forall (its : list (list (round A) * bool * list (list A))) fresh,
-    Forall (fun it => existsb is_internal (fst (fst it)) = false) its ->
+    Forall iteration_ok its ->
     tdrops_fresh fresh (concat (map render_iteration its)).
   Proof. exact render_loop_drops_fresh. Qed.
 
-  (* ---- progress: every round in which the tty accepts at least one byte decreases
-     |pending| + chunks, so a schedule with that many accepting rounds (any sizes) leaves the
-     queue empty with everything delivered in order.  (With a kernel that never accepts a byte
-     nothing is delivered and C16_order / C16_drained say nothing: the wait is the peer's.) *)
-  Theorem C16_progress : forall (sched : list (round A)) (t : term A),
-    TI t -> Forall accepting sched -> work t <= length sched ->
+  (* ---- progress.  A round in which the tty accepts at least one byte decreases
+     |pending| + chunks; a round in which the write is refused (EAGAIN, EINTR: KAccept 0) or select
+     returns for another reason (KIdle) never increases it.  So from every state a program can
+     reach, any continuation of the poll loop - accepting, refusing and idle rounds in any order -
+     with that many accepting rounds (of any sizes) leaves the queue empty with everything
+     delivered in order.  (With a kernel that never accepts a byte nothing is delivered and
+     C16_order / C16_drained say nothing: the wait is the peer's.) *)
+  Theorem C16_progress : forall (prog : list (top A)) t X (sched : list (round A)),
+    (N.of_nat (length (twritten prog)) <= usize_max)%N ->
+    trun term0 prog [] = Ok (t, X) ->
+    Forall quiet sched -> work t <= accepting_count sched ->
     exists t', poll_rounds t sched = Ok t'
       /\ is_empty (tq t') = true
       /\ tty t' = tty t ++ pending (tq t).
-  Proof. exact accepting_rounds_drain. Qed.
+  Proof. exact run_then_rounds_drain. Qed.
 
   (* ---- the specification side of the correspondence accepts every history of the model: the
      property predicate of the queue check can only fail where the implementation departs
@@ -199,17 +208,18 @@ Section Statements.
   Qed.
 End Statements.
 
-(* ---- the code as found (before the two `fix:` commits) refutes the property *)
+(* ---- the code as found (before the two `fix:` commits) refutes the property: two computed
+   instances of the models of the functions as found (lemmas, not counted among the theorems) *)
 
 (* clear_but_last left `length` stale: len() = 7 while 3 bytes can be read *)
-Theorem C16_length_defect_as_found :
+Lemma C16_length_defect_as_found :
   let q := flush (write (flush (write (@qempty N) [1;2;3]%N)) [4;5;6;7]%N) in
   len (clear_but_last_orig q) = 7 /\ length (pending (clear_but_last_orig q)) = 3.
 Proof. exact clear_but_last_orig_refuted. Qed.
 
 (* flush tested the front slice: write a; flush; flush; write b leaves an empty chunk in the
    middle, and a read returns no byte (end of data for read_to_end) while len() = 1 *)
-Theorem C16_flush_defect_as_found :
+Lemma C16_flush_defect_as_found :
   let q := write (flush_o (flush_o (write (@qempty N) [97]%N))) [98]%N in
   exists q1 q2, read q 4 = Ok (q1, [97]%N) /\ read q1 4 = Ok (q2, []) /\ len q1 = 1 /\ pending q1 = [98]%N.
 Proof. exact flush_orig_refuted. Qed.
@@ -262,6 +272,35 @@ Example C16_drop_mid_frame_tears :
   exists t, trun term0 [TWrite [9]; TPoll [KAccept 0]; TWrite [1]; TDrop; TWrite [2]; TPoll [KAccept 9; KAccept 9]]%N []
             = Ok (t, [[1]]%N) /\ tty t = [9; 2]%N.
 Proof. eexists. vm_compute. split; reflexivity. Qed.
+
+(* the render loop in escape sequence resize mode, as found: the poll that handles SIGWINCH queues
+   the size query (7 = the query) and returns with two frames pending; frames_drop discards the
+   query with the second frame, the tty never sees it ... *)
+Example C16_size_query_dropped_example :
+  exists t, trun term0 [TWrite [1;2]; TPoll [KAccept 1]; TWrite [3]; TPoll [KIdle; KInternal [7]]; TDrop;
+                        TWrite [4]; TPoll [KAccept 9; KAccept 9]]%N []
+            = Ok (t, [[3]; [7]]%N) /\ tty t = [1;2;4]%N /\ is_empty (tq t) = true.
+Proof. eexists. vm_compute. repeat split; reflexivity. Qed.
+
+(* ... and as repaired (e293376): frames_drop queues the query again, it arrives ahead of the next frame *)
+Example C16_size_query_requeued_example :
+  exists t, trun term0 [TWrite [1;2]; TPoll [KAccept 1]; TWrite [3]; TPoll [KIdle; KInternal [7]]; TDrop; TWrite [7];
+                        TWrite [4]; TPoll [KAccept 9; KAccept 9]]%N []
+            = Ok (t, [[3]; [7]]%N) /\ tty t = [1;2;7;4]%N /\ is_empty (tq t) = true.
+Proof. eexists. vm_compute. repeat split; reflexivity. Qed.
+
+(* progress is not vacuous: five bytes in two chunks (work 7 counts the open chunk too); the kernel
+   refuses twice, is idle once and accepts one byte at a time: seven accepting rounds drain it *)
+Example C16_progress_nonvacuous :
+  let prog := [TWrite [1;2;3]; TFlush; TWrite [4;5]]%N in
+  let sched := [KAccept 1; KAccept 0; KIdle; KAccept 1; KAccept 1; KAccept 0; KAccept 1; KAccept 1;
+                KAccept 1; KAccept 1]%N in
+  exists t t', trun term0 prog [] = Ok (t, []) /\ work t <= accepting_count sched /\ Forall quiet sched
+    /\ poll_rounds t sched = Ok t' /\ is_empty (tq t') = true /\ tty t' = [1;2;3;4;5]%N.
+Proof.
+  do 2 eexists. split; [vm_compute; reflexivity|]. split; [vm_compute; repeat constructor|].
+  split; [repeat constructor|]. vm_compute. repeat split; reflexivity.
+Qed.
 
 (* a reachable state with a partly consumed front chunk and two more chunks *)
 Example C16_reachable_example :
